@@ -47,7 +47,7 @@ M = {
  "hooks": {
    "guard": "POMEROL_VERIF",
    "enable": "no source hooks are needed: checks compile /repo/src against the shadow header sim/shadow/boost/mpi.hpp (include-path seam) and link SimGOMP instead of libgomp (link-time seam); -DPOMEROL_VERIF is passed to the compiler but no code in /repo tests it",
-   "baseline_off_cmd": "cmake --build /repo/_build -j16 && ctest --test-dir /repo/_build -j8 --timeout 900",
+   "baseline_off_cmd": "cmake --build /repo/_build -j16 && OMPI_ALLOW_RUN_AS_ROOT=1 OMPI_ALLOW_RUN_AS_ROOT_CONFIRM=1 ctest --test-dir /repo/_build -j8 --timeout 900",
    "source_commits": [],
    "add_only": True,
  },
